@@ -112,4 +112,17 @@ def preorder : Node → Path → List (Path × Node)
   | branch ch v, pre => (pre, branch ch v) ::
       (List.finRange 16).flatMap fun i => if isBlank (ch i) then [] else preorder (ch i) (pre ++ [i])
 
+/-- `items()`: the nodes of `nodes()` that carry a value, as (full key path, value) -/
+def itemsOf (t : Node) : List (Path × Bytes) :=
+  (preorder t []).filterMap fun e =>
+    let a := annotate e.2
+    if a.value ≠ [] then some (e.1 ++ a.suffix, a.value) else none
+
+/-- Python's order on `bytes` -/
+def blt : Bytes → Bytes → Bool
+  | [], [] => false
+  | [], _ :: _ => true
+  | _ :: _, [] => false
+  | a :: as, b :: bs => if a < b then true else if b < a then false else blt as bs
+
 end PyTrie.Hex
